@@ -40,6 +40,10 @@ SaveUpdate(s, u) ==
   IN IF Len(u.ents) = 0 THEN s2
      ELSE [s2 EXCEPT !.ents = PutAll(@, u.ents, 1), !.max = u.ents[Len(u.ents)][1]]
 
+\* ILogDB.ImportSnapshot (the repair tool): whatever the replica had is replaced by the imported snapshot
+\* record, the hard state (term of the snapshot, no vote, its index as commit index) and an empty log behind it
+ImportRec(s, idx, term) == [ents |-> <<>>, max |-> idx, st |-> <<term, 0, idx>>, ss |-> idx, rm |-> idx, soft |-> {}]
+
 SaveSnapshotRec(s, idx) == IF idx > s.ss THEN [s EXCEPT !.ss = idx] ELSE s
 RemoveTo(s, idx) == [s EXCEPT !.ents = [x \in {y \in DOMAIN @ : y > idx} |-> @[x]], !.rm = idx]
 
